@@ -49,7 +49,10 @@ def validator():
 
 def plan(tier):
     n, per = (12, 120) if tier == 'quick' else (16, 5000)
-    return [{'kind': 'documents', 'n': per} for _ in range(n)]
+    sh = [{'kind': 'documents', 'n': per} for _ in range(n)]
+    if tier == 'thorough':       # coverage-guided campaigns on the same test (atheris), own seed and corpus each
+        sh += [{'kind': 'fuzz', 'target': 'documents', 'runs': 6000} for _ in range(6)]
+    return sh
 
 
 def mk_contract(r):
@@ -231,11 +234,19 @@ def check_document(results, use_with, stats=None, medium='stringio'):
             stats.nt(text, {'records': len(results), 'text_prefix': text[:160]} if len(results) == 2 else None)
 
 
+def fuzz_target(name, stats):
+    """(test function, strategies) - shared by the in-process Hypothesis tier and the atheris tier."""
+    return (lambda results, use_with, medium: check_document(results, use_with, stats, medium),
+            {'results': st.lists(GB.result(st.text(max_size=12)), min_size=0, max_size=8), 'use_with': st.booleans(),
+             'medium': st.sampled_from(MEDIA)})
+
+
 def run_shard(spec, seed, tier, stats):
-    v = run_hypothesis(lambda results, use_with, medium: check_document(results, use_with, stats, medium),
-                       {'results': st.lists(GB.result(st.text(max_size=12)), min_size=0, max_size=8), 'use_with': st.booleans(),
-                        'medium': st.sampled_from(MEDIA)},
-                       seed, spec['n'], tier == 'thorough')
+    if spec['kind'] == 'fuzz':
+        from vf.common.fuzz import run_fuzz_shard
+        return run_fuzz_shard(ID, spec, seed, stats)
+    fn, strategies = fuzz_target('documents', stats)
+    v = run_hypothesis(fn, strategies, seed, spec['n'], tier == 'thorough')
     return [v] if v else []
 
 
